@@ -110,6 +110,34 @@ def snap(o, skip=(), depth=0):
     return repr(o)
 
 
+def scribble(o, depth=0):
+    """Overwrite, in place, every array / table a caller received as (part of) a result - what a caller is
+    free to do with values handed to it.  Returns the number of containers written."""
+    n = 0
+    if depth > 4:
+        return 0
+    try:
+        if isinstance(o, np.ndarray):
+            if o.dtype.kind == 'f' and o.flags.writeable and o.size:
+                o[...] = -2.5 * o + 3.25
+                n = 1
+        elif isinstance(o, pd.DataFrame):
+            if o.size and all(k.kind == 'f' for k in o.dtypes):
+                o.iloc[:, :] = -2.5 * o.values + 3.25
+                n = 1
+        elif isinstance(o, pd.Series):
+            if o.size and o.dtype.kind == 'f':
+                o.iloc[:] = -2.5 * o.values + 3.25
+                n = 1
+        elif isinstance(o, (list, tuple)):
+            n = sum(scribble(x, depth + 1) for x in o)
+        elif isinstance(o, dict):
+            n = sum(scribble(x, depth + 1) for x in o.values())
+    except Exception:  # noqa  (a read-only result cannot be overwritten: nothing to check then)
+        pass
+    return n
+
+
 def digest(o):
     return hashlib.sha1(repr(snap(o)).encode()).hexdigest()
 
@@ -628,6 +656,25 @@ def run_case(case):
                   'place, calling again with the same objects does not follow the new contents' % (g.name, form))
         except Exception:  # noqa  (a perturbed argument may be invalid for the entry: nothing to compare then)
             pass
+    # 2c. the caller overwrites what it was handed, then calls again with equal inputs: the second result must
+    # equal the first (a function that hands out its cache, a module-level template or a default object fails)
+    for form in g.forms:
+        try:
+            r1 = g.call(g.make(form))
+            calls += 1
+            if digest(r1) != base[form]:
+                continue                               # already reported by the repeat check
+            if not scribble(r1):
+                continue
+            r2 = g.call(g.make(form))
+            calls += 1
+            if digest(r2) != base[form]:
+                v('c19-result-shared-with-later-calls:' + g.name, '%s (%s form): after the caller overwrote the arrays '
+                  'returned by one call, the next call with equal inputs returns different values (the function hands '
+                  'out internal state)' % (g.name, form))
+        except Exception as e:  # noqa
+            v('c19-entry-raises:' + g.name, '%s raised %s after a returned result was overwritten: %s'
+              % (g.name, type(e).__name__, str(e)[:120]))
     # 3. g after every f (all ordered pairs, accumulating history)
     form_g = g.forms[0]
     history = []
